@@ -617,13 +617,17 @@ def job_pairs(pairs, tier, seed):
     return ck.export()
 
 
+def _text_dispatch(kind, arg, tier, seed):
+    return job_parser(tier, seed) if kind == 'parser' else job_rows(arg, tier, seed)
+
+
 def run_text(ck, tier, seed):
     """called from c05.run"""
     E = env()
     n = len(E['rows'])
     rows = list(range(n))
     chunks = [rows[k::16] for k in range(16)]
-    res = core.pmap(job_rows, [(c, tier, seed) for c in chunks])
+    res = core.pmap(_text_dispatch, [('parser', None, tier, seed)] + [('rows', c, tier, seed) for c in chunks])
     # candidate pairs need every row's tokens: rendered here once (parent), workers inherit them
     pairs = candidate_pairs(E)
     ck.notes.append('%d rows rendered; %d row pairs share a first token and a token count and are compared' % (n, len(pairs)))
@@ -636,5 +640,173 @@ def run_text(ck, tier, seed):
     ck.funcs.update(['every Disassembler::<renderer> through Matcher<Disassembler>::call', 'Dsm(...) overloads, DsmReg, Mul, PA, the variadic D(...), std::vector<std::string>', 'Teakra::Disassembler::Do (join)'])
     ck.assumptions += ['text clause: std::string has an abstract domain (handle -> pieces: literal | "0x" + fixed-width hex digits of a term); the libstdc++ string API (constructors, append, +=, insert(0, ..), size, std::to_string of small values) and ToHex<T> (the only user of the stream classes: setfill(0) setw(2*sizeof(T)) hex) are modelled on it, all other code is the real IR',
                        'text equality is decided on a bit-vector encoding (length, characters) of each token, exact because every alternative of a token has a concrete length',
-                       'plain rendering (no ArArpSettings); the assembler (parser.cpp GenerateParser) is the inverse image of this text by construction (it enumerates the disassembler) and is not executed; firmware assembly is not decided']
+                       'plain rendering (no ArArpSettings); the assembler generator (parser.cpp) is executed separately: its enumeration of all 65536 first words in full, its insertion / first-wins / lookup logic on 9 chosen words (Parser.domain, Parser.lookup); firmware assembly is not decided']
     ck.stubs += ['std::string -> abstract pieces', 'ToHex<T> -> "0x" + hex piece', 'GetTokenList inside Do -> the row renderer under test']
+
+
+# ------------------------------------------------------------------------------------------------ the assembler generator
+def job_parser(tier, seed):
+    """src/parser.cpp: the real GenerateParser runs once in the executor with the disassembler answered by the check.
+    (1) Domain: the sequence of first words it asks the disassembler about is exactly 0, 1, ..., 0xFFFF (the loop control is
+        concrete code; every iteration is executed).
+    (2) Body, on a chosen set of words K (all others print "[ERROR]" and must be skipped): the trie the real unordered_map code
+        builds is queried with the real Parser::Parse - every token list of K comes back as the first word that printed it
+        (a later alias never replaces it), with the expansion flag NeedExpansion reported; a list containing "[ERROR]" and a
+        list that was never inserted are Invalid. K includes 0 and 0xFFFF, the ends of the range."""
+    ck = core.Check('C05', 'other', tier, seed)
+    ll, h = build.compile_ir('h_parser.cpp')
+    mod = build.load_module(ll)
+    ex, st = kit.new_exec(mod, unwind=70000)
+    interp._install_hashtable_stubs(ex)
+    S = Store()
+    install(mod, ex, S)
+    I = ex.intercepts
+    # token texts per chosen word: (tokens, needs expansion); aliases print the same text
+    K = {0x0000: (['first'], 0), 0x0001: (['alpha', 'r0'], 0), 0x0021: (['alpha', 'r0'], 0), 0x0101: (['alpha', 'r1'], 1), 0x4000: (['beta'], 0), 0x4001: (['[ERROR]7', 'x'], 0),
+         0x8123: (['gamma', '0x0001', 'a0'], 1), 0xFFFE: (['delta', 'z'], 0), 0xFFFF: (['omega', '[page:0x00ffu8]', '0x000f'], 0)}
+    asked, asked_exp = [], []
+    litreg = {}
+
+    def lit_region(e, st_, h):
+        """materialise a (literal) abstract string as bytes, for the real hashing / comparison code"""
+        if h not in litreg:
+            bs = b''.join(p[1] for p in S.vals[h])
+            r = e.new_region(st_, len(bs) + 1, 'strbytes')
+            litreg[h] = (r, bs)
+        r, bs = litreg[h]
+        for k, c in enumerate(bs + b'\0'):
+            e.store(st_, Ptr(r, k), 1, c)
+        return Ptr(r, 0)
+
+    def gettokens(e, st_, a):
+        o = a[1]
+        if not is_c(o):
+            raise Abort('GenerateParser asks about a symbolic word')
+        asked.append(o)
+        toks = K.get(o, (['[ERROR]'], 0))[0]          # every other word is unrenderable: the generator must skip it
+        vec = a[0]
+        r = e.new_region(st_, 32 * len(toks), 'tokvec')
+        for k, t in enumerate(toks):
+            e.store(st_, Ptr(r, 32 * k), 8, S.intern((('lit', t.encode()),)))
+            e.store(st_, Ptr(r, 32 * k + 8), 8, 0)
+        e.store(st_, vec, 8, Ptr(r, 0))
+        e.store(st_, Ptr(vec.r, vec.o + 8), 8, Ptr(r, 32 * len(toks)))
+        e.store(st_, Ptr(vec.r, vec.o + 16), 8, Ptr(r, 32 * len(toks)))
+        return st_, None
+
+    def needexp(e, st_, a):
+        asked_exp.append(a[0])
+        return st_, K.get(a[0], ([], 0))[1] if is_c(a[0]) else 0
+
+    def handle_of(e, st_, p):
+        h = e.load(st_, p, 8)
+        if not is_c(h):
+            raise Abort('symbolic string in the parser scenario')
+        return h
+
+    def s_find(e, st_, a):
+        h = handle_of(e, st_, a[0])
+        hay = b''.join(p[1] for p in S.vals[h])
+        k = hay.find(bytes(kit.cstring(e, st_, a[1]), 'latin1'))
+        return st_, (k if k >= 0 else (1 << 64) - 1)
+
+    def s_data(e, st_, a):
+        return st_, lit_region(e, st_, handle_of(e, st_, a[0]))
+
+    def hash_bytes(e, st_, a):
+        p, n = a[0], a[1]
+        if not is_c(n):
+            raise Abort('hash of symbolic length')
+        hv = 0xcbf29ce484222325
+        for k in range(n):
+            c = e.load(st_, Ptr(p.r, p.o + k), 1)
+            if not is_c(c):
+                raise Abort('hash of symbolic bytes')
+            hv = ((hv ^ c) * 0x100000001b3) & ((1 << 64) - 1)
+        return st_, hv
+
+    def memcmp(e, st_, a):
+        if not is_c(a[2]):
+            raise Abort('memcmp of symbolic length')
+        for k in range(a[2]):
+            x, y = e.load(st_, Ptr(a[0].r, a[0].o + k), 1), e.load(st_, Ptr(a[1].r, a[1].o + k), 1)
+            if x != y:
+                return st_, (1 if x > y else (1 << 32) - 1)
+        return st_, 0
+    for n in list(mod.decls) + list(mod.funcs):
+        if 'GetTokenList' in n:
+            I[n] = gettokens
+        elif 'NeedExpansion' in n and 'Disassembler' in n:
+            I[n] = needexp
+        elif n.startswith('@' + STRK + '4findEPKcm'):
+            I[n] = s_find
+        elif n.startswith('@' + STRK + '4dataEv') or n.startswith('@' + STRK + '5c_strEv'):
+            I[n] = s_data
+    I['@_ZSt11_Hash_bytesPKvmm'] = hash_bytes
+    I['@memcmp'] = memcmp
+    try:
+        r = ex.call(st, '@pz_generate', [])
+        if r is None or r is DEAD:
+            raise Abort('GenerateParser does not return: %r' % [x[1:] for x in ex.exits][:2])
+        st1, parser = r
+        ck.ninstr += ex.ninstr
+        ck.nstates += 1
+    except (Abort, UnwindBound) as x:
+        ck.inconclusive.append('Parser: %s' % str(x)[:160])
+        return ck.export()
+    ok_domain = asked == list(range(0x10000))
+    if ok_domain:
+        ck.identical('Parser.domain', sample='GenerateParser asked the disassembler for the token list of every first word 0..0xFFFF exactly once, in order (the real loop, %d IR instructions)' % ex.ninstr)
+        ck.results[-1].status = 'unsat'
+    else:
+        missing = sorted(set(range(0x10000)) - set(asked))[:4]
+        ck.prove('Parser.domain', [], z3.BoolVal(False), vars={'first words never enumerated': z3.BitVecVal(missing[0] if missing else 0, 16)}, witness=False,
+                 sample='GenerateParser enumerated %d words; missing e.g. %s' % (len(asked), ['%#06x' % m for m in missing]))
+
+    def parse(tokens):
+        s2 = st1.fork()
+        r_ = s2.mem  # noqa
+        vec = ex.new_region(s2, 24, 'query')
+        reg = ex.new_region(s2, 32 * max(len(tokens), 1), 'querytoks')
+        for k, t in enumerate(tokens):
+            ex.store(s2, Ptr(reg, 32 * k), 8, S.intern((('lit', t.encode()),)))
+            ex.store(s2, Ptr(reg, 32 * k + 8), 8, 0)
+        ex.store(s2, Ptr(vec, 0), 8, Ptr(reg, 0))
+        ex.store(s2, Ptr(vec, 8), 8, Ptr(reg, 32 * len(tokens)))
+        ex.store(s2, Ptr(vec, 16), 8, Ptr(reg, 32 * len(tokens)))
+        out = ex.new_region(s2, 8, 'opcode_out')
+        r2 = ex.call(s2, '@pz_parse', [parser, Ptr(vec, 0), Ptr(out, 0)])
+        return ex.load(r2[0], Ptr(out, 0), 4), ex.load(r2[0], Ptr(out, 4), 2)
+    first = {}
+    for o in sorted(K):
+        first.setdefault(tuple(K[o][0]), o)
+    bad = []
+    try:
+        for o in sorted(K):
+            toks, expn = K[o]
+            status, opc = parse(toks)
+            if any('[ERROR]' in t for t in toks):
+                want = (0, None)
+            else:
+                f = first[tuple(toks)]
+                want = (2 if K[f][1] else 1, f)
+            if status != want[0] or (want[1] is not None and opc != want[1]):
+                bad.append('%#06x %r -> status %r opcode %r, expected status %d opcode %s' % (o, toks, status, opc, want[0], '%#06x' % want[1] if want[1] is not None else '-'))
+        status, opc = parse(['alpha'])
+        if status != 0:
+            bad.append("prefix ['alpha'] of an inserted list parses as valid")
+        status, opc = parse(['never', 'inserted'])
+        if status != 0:
+            bad.append('a list that was never inserted parses as valid')
+    except (Abort, UnwindBound) as x:
+        ck.inconclusive.append('Parser.lookup: %s' % str(x)[:160])
+        return ck.export()
+    if not bad:
+        ck.identical('Parser.lookup', sample='the trie built by the real GenerateParser returns, through the real Parse, the first word that printed each of %d chosen token lists (aliases do not replace it), the reported expansion need, Invalid for [ERROR] texts, prefixes and unknown lists; the chosen words include 0x0000 and 0xFFFF' % len(K))
+        ck.results[-1].status = 'unsat'
+    else:
+        ck.prove('Parser.lookup', [], z3.BoolVal(False), vars={}, witness=False, sample='; '.join(bad[:3]))
+    ck.funcs.update(['Teakra::GenerateParser (loop, trie insertion, first-wins, superset ASSERT)', 'ParserImpl::Parse', 'std::unordered_map<std::variant<std::string, NodeAsExpansion>, std::unique_ptr<Node>> (real libstdc++ hashtable code)'])
+    ck.assumptions += ['assembler generator: GetTokenList / NeedExpansion are answered by the check (the real ones are the text clause); std::_Hash_bytes is replaced by FNV-1a over the same bytes (any hash function is admissible for the container)',
+                       'the body of the generator loop is exercised on 9 chosen first words only (bounded); that it enumerates all 65536 first words is decided by executing the whole loop']
+    return ck.export()
